@@ -1227,6 +1227,9 @@ def gen_spl(rng, tier):
                         else:
                             toks.append("set:m:" + hx(rng.choice([0.3, 0.5, 1.0])))
                     sets = " 1 " + " ".join(toks)
+                if rng.random() < 0.2:
+                    # elevation and drainage area handed over as non-contiguous views
+                    sets = (sets or " 1") + " view"
                 lines.append("spl %s %s %s %s %s %s %s%s" % (kpart, hx(m), hx(nn), hx(tol), hx(dt), gen.hexes(area), gen.hexes(ze), sets))
                 z = ze
         out.append(("e%d" % k, lines))
